@@ -497,8 +497,60 @@ def check_raw_sequence(seq, part, case):
     part.evaluations += 1
 
 
+def text_paths():
+    """(path tree, how it is handed over as TEXT): the whole left-hand side as one string, and an ObjectPath built from step texts"""
+    out = []
+    for path in A.PATHS + [(("key", "p"), ("idx", 10)), (("key", "p"), ("idx", 123), ("key", "q")), (("key", "sections"), ("idx", 10), ("key", "entropy")), (("key", "p"), ("idx", 0))]:
+        steps = list(path)
+        if any(st[0] == "key" and (not A.IDENT.match(st[1]) or st[1] in A.RESERVED) for st in steps):
+            continue        # quoted steps have no plain-text spelling inside a dotted string
+        if any(steps[i][0] == "idx" and (i == 0 or steps[i - 1][0] == "idx") for i in range(len(steps))):
+            continue
+        out.append(path)
+    return out
+
+
+def check_text_path(path, part, case):
+    import stix2.patterns as P
+    want = A.norm(("leaf", ("cmp", "=", False, ("path", "x", path), ("int", 1))))
+    dotted = A.p_path(("path", "x", path))                      # e.g. x:p[10].q
+    comps, i = [], 0
+    steps = list(path)
+    while i < len(steps):
+        if i + 1 < len(steps) and steps[i + 1][0] == "idx":
+            comps.append("%s[%s]" % (steps[i][1], steps[i + 1][1]))
+            i += 2
+        else:
+            comps.append(steps[i][1])
+            i += 1
+    for form, make in (("lhs-string", lambda: P.EqualityComparisonExpression(dotted, 1)), ("ObjectPath-from-step-texts", lambda: P.EqualityComparisonExpression(P.ObjectPath("x", list(comps)), 1)),
+                       ("make_object_path", lambda: P.EqualityComparisonExpression(P.ObjectPath.make_object_path(dotted), 1))):
+        part.evaluations += 1
+        part.transitions += 1
+        c = dict(case, form=form, path=dotted)
+        try:
+            text = str(P.ObservationExpression(make()))
+            got = A.norm(A.read(text, "2.1"))
+        except Exception as e:
+            part.outcome("text-path:raises")
+            part.violation("C10/text-path-raises/%s/%s" % (form, type(e).__name__), "a path given as text cannot be turned into a printable pattern", c, A.to_text(("leaf", ("cmp", "=", False, ("path", "x", path), ("int", 1)))),
+                           "%s: %s" % (type(e).__name__, str(e)[:100]))
+            continue
+        if got != want:
+            part.outcome("text-path:CHANGED")
+            part.violation("C10/text-path-changed/%s/%s" % (form, A.path_feature(("path", "x", path)) + ("+index>=10" if any(st[0] == "idx" and isinstance(st[1], int) and st[1] >= 10 for st in path) else "")),
+                           "a path given as text prints as another path", dict(c, printed=text), A.to_text(("leaf", ("cmp", "=", False, ("path", "x", path), ("int", 1)))), text)
+        else:
+            part.outcome("text-path:ok")
+
+
 def run_case(case, part):
     env.reset()
+    if case["family"] == "text-paths":
+        for i, path in enumerate(text_paths()):
+            if case.get("index") is None or case["index"] == i:
+                check_text_path(path, part, {"family": "text-paths", "index": i})
+        return
     if case["family"] == "constants":
         for i, (cname, args, want) in enumerate(constant_menu()):
             if case.get("index") is None or case["index"] == i:
@@ -539,6 +591,8 @@ def run(run):
         for lo in range(0, len(trees), step):
             cases.append({"family": name, "lo": lo, "hi": lo + step, "thorough": th})
     cases.append({"family": "constants"})
+    cases.append({"family": "text-paths"})
+    sizes["text-paths"] = len(text_paths())
     for first in range(len(RAW)):
         cases.append({"family": "raw-values", "depth": 3 if th else 2, "first": first})
     sizes["constants"] = len(constant_menu())
